@@ -109,6 +109,8 @@ func init() {
 			}
 			return e.B.Bool(true)
 		},
+		"verifSameF32": func(e *Exec, fr *frame, args []Value) Value { return e.B.Eq(args[0].(*Term), args[1].(*Term)) },
+		"verifSameF64": func(e *Exec, fr *frame, args []Value) Value { return e.B.Eq(args[0].(*Term), args[1].(*Term)) },
 		"verifIsSymbolic": func(e *Exec, fr *frame, args []Value) Value { return e.B.Bool(true) },
 		"verifSteps": func(e *Exec, fr *frame, args []Value) Value { return e.mkInt(e.steps) },
 		"verifAllocated": func(e *Exec, fr *frame, args []Value) Value { return e.mkInt(e.allocated) },
@@ -201,7 +203,17 @@ func (e *Exec) Assert(c *Term, label string) {
 		panic(pathStop{})
 	}
 	neg := e.B.Not(c)
-	r := e.check(neg)
+	var r Result
+	if e.Cfg.OneShotAsserts {
+		lits := append(append([]*Term{}, e.pcs...), e.ufFacts...)
+		lits = append(lits, neg)
+		r, _ = e.S.OneShot(lits, nil, e.S.TimeoutMs, nil)
+		if r == Sat && len(e.ufOrder) > 0 {
+			r = e.check(neg) // refine table facts through the incremental path
+		}
+	} else {
+		r = e.check(neg)
+	}
 	switch r {
 	case Unsat:
 		e.known[c.ID] = true
